@@ -139,6 +139,14 @@ class Z3Seam:
                 if r == unknown:
                     seam.fired.append([seam.cur_op, seam.op_checks, kind, budget])
                 return r
+            if f is not None and f[0] == "z3exception":
+                # Z3 does not only give up by answering unknown: Z3_solver_check_assumptions also fails with an error
+                # (observed for real: "reached max unfolding" from the sequence solver), which z3py raises as Z3Exception
+                kind, phase = f
+                seam.fired.append([seam.cur_op, seam.op_checks, kind, phase])
+                if phase == "late":
+                    orig_check(slf, *assumptions)
+                raise z3.Z3Exception(b"injected: reached max unfolding")
             if f is not None:
                 kind, phase = f
                 seam.fired.append([seam.cur_op, seam.op_checks, kind, phase])
